@@ -52,6 +52,27 @@ func c12BuildPayload(kind int, idx group.MemberIndex, session string) net.Tagged
 	}
 }
 
+// c12Ident renders the content of a message that identifies it in a case.
+func c12Ident(m interface{}) string {
+	switch v := m.(type) {
+	case *EphemeralPublicKeyMessage:
+		return fmt.Sprintf("ephemeralPublicKey/%d/%q", v.senderID, v.sessionID)
+	case *PeerSharesMessage:
+		return fmt.Sprintf("peerShares/%d/%q", v.senderID, v.sessionID)
+	case *MemberCommitmentsMessage:
+		return fmt.Sprintf("memberCommitments/%d/%q", v.senderID, v.sessionID)
+	case *SecretSharesAccusationsMessage:
+		return fmt.Sprintf("sharesAccusations/%d/%q", v.senderID, v.sessionID)
+	case *MemberPublicKeySharePointsMessage:
+		return fmt.Sprintf("publicKeySharePoints/%d/%q", v.senderID, v.sessionID)
+	case *PointsAccusationsMessage:
+		return fmt.Sprintf("pointsAccusations/%d/%q", v.senderID, v.sessionID)
+	case *MisbehavedEphemeralKeysMessage:
+		return fmt.Sprintf("misbehavedEphemeralKeys/%d/%q", v.senderID, v.sessionID)
+	}
+	return fmt.Sprintf("%T", m)
+}
+
 // stored reads what a state keeps for the next phase, per message kind.
 func c12Stored(s state.SyncState) map[int][]interface{} {
 	out := map[int][]interface{}{}
@@ -241,8 +262,10 @@ func TestVerif_C12_GjkrStates(t *testing.T) {
 				p := c12BuildPayload(m.kind, m.idx, m.session)
 				return p, p.Type(), true, ""
 			},
-			receive: machineState.Receive,
-			stored:  func() map[int][]interface{} { return c12Stored(machineState) },
+			receive:  machineState.Receive,
+			register: RegisterUnmarshallers,
+			ident:    c12Ident,
+			stored:   func() map[int][]interface{} { return c12Stored(machineState) },
 		}, caseTags)
 	})
 }
